@@ -19,8 +19,8 @@ vars == <<l, st, src>>
 ObsAgrees(o, zero) ==
   LET s == o.vals IN
   /\ o.size = Len(s)
-  /\ Len(o.get) = Len(s) + 2
-  /\ \A i \in DOMAIN o.get : o.get[i] = GetRet(s, i - 2, zero)
+  /\ Len(s) <= 48 => {o.get[i][1] : i \in DOMAIN o.get} = -1 .. Len(s)      \* short lists: every index; long ones: a spread
+  /\ \A i \in DOMAIN o.get : <<o.get[i][2], o.get[i][3]>> = GetRet(s, o.get[i][1], zero)
   /\ \A i \in DOMAIN o.idx : /\ o.idx[i][2] = IndexOf0(s, o.idx[i][1])
                              /\ o.idx[i][3] = (o.idx[i][1] \in Members(s))
   /\ o.cnone = TRUE
